@@ -915,7 +915,7 @@ def run(ctx):
         jobs += [(p, ["local", "vfs"]) for p in ctx.rng.sample(longer, min(600, len(longer)))]
     # (2) a seeded sample of the edge cover; a path without VFS-only operations also runs against a server without VFS
     #     verbs; thorough also covers the graph of the model without those operations
-    budget = 200 if ctx.quick else 3000
+    budget = 150 if ctx.quick else 3000
     plans = [(full, ["local", "vfs"], 1.0)]
     ncover = len(full)
     if not ctx.quick:
@@ -961,7 +961,7 @@ def run(ctx):
     test = corrupted(rows)
     if not test and not ctx.violations:
         ctx.machinery("no recorded row is long enough for the binding self-test")
-    size = max(40, -(-len(rows) // (4 * core.max_workers())))
+    size = max(40, -(-len(rows) // min(16, core.max_workers())))
     parts = [rows[i:i + size] for i in range(0, len(rows), size)]
     core.fork_map(ctx, judge_chunk, [(part, test if i == len(parts) - 1 else []) for i, part in enumerate(parts)],
                   chunks_per_proc=len(parts))
